@@ -21,7 +21,7 @@ theorem nodup_dedup {α} [DecidableEq α] : ∀ l : List α, (dedup' l).Nodup
     refine ⟨?_, (nodup_dedup xs).sublist List.filter_sublist⟩
     simp [List.mem_filter]
 
-theorem insertStable_perm {α} (lt : α → α → Bool) (x : α) (l : List α) : (insertStable lt x l).Perm (x :: l) := by
+theorem nd_insertStable_perm {α} (lt : α → α → Bool) (x : α) (l : List α) : (insertStable lt x l).Perm (x :: l) := by
   induction l with
   | nil => simp [insertStable]
   | cons y ys ih =>
@@ -30,13 +30,13 @@ theorem insertStable_perm {α} (lt : α → α → Bool) (x : α) (l : List α) 
     · exact (List.Perm.cons y ih).trans (List.Perm.swap x y ys)
     · exact List.Perm.refl _
 
-theorem ssort_perm {α} (lt : α → α → Bool) (l : List α) : (ssort lt l).Perm l := by
+theorem nd_ssort_perm {α} (lt : α → α → Bool) (l : List α) : (ssort lt l).Perm l := by
   unfold ssort
   induction l with
   | nil => simp
   | cons x xs ih =>
     simp only [List.foldr]
-    exact (insertStable_perm lt x _).trans (List.Perm.cons x ih)
+    exact (nd_insertStable_perm lt x _).trans (List.Perm.cons x ih)
 
 theorem nd_productSafe {es : List Expr} (h : SumNDList es) : SumND (productSafe es) := by
   unfold productSafe
@@ -76,7 +76,7 @@ theorem nd_sumSimplify {e : Expr} {r : List Var} (he : SumND e) (hr : r.Nodup) :
   · exact ⟨he, hr⟩
 
 theorem sortVars_nodup_aux (vs : List Var) : (sortVars vs).Nodup :=
-  (ssort_perm _ _).nodup_iff.2 (nodup_dedup vs)
+  (nd_ssort_perm _ _).nodup_iff.2 (nodup_dedup vs)
 
 theorem nd_sumSafe {e : Expr} {r : List Var} (s : Bool) (he : SumND e) : SumND (sumSafe e r s) := by
   unfold sumSafe
